@@ -29,16 +29,16 @@ PLANNED = {
 CLAIMS = {
  'C13': {
   'engine': 'histsim',
-  'technique': 'deterministic simulation of a long-lived compiling process: seeded operation histories (parse, compile, reuse of rules and program objects, failing compiles, clock jumps, directory and environment changes) in simulated processes (module-universe reset, confirmed by forks of a pristine zygote) under a chosen PYTHONHASHSEED, refinement against pristine processes under the same and under another hash seed; simulated clock',
-  'text': 'Seeded search over operation histories x hash seeds x programs (repository corpus and generated programs with functors, all recursion modes, imports, typed dialects, experimental syntax); a clean batch is evidence over the sampled histories and seeds, not a proof. Exploration is the right level: the property quantifies over all histories and all hash seeds.',
-  'note': 'Trusted: fork() of a never-used zygote is a fresh process; the cheap process model (repository modules dropped and re-imported) is cross-validated against it once per batch and every disagreement is confirmed with real processes before it counts; only the exception type is compared for failing requests; the C++ parser mode is not exercised.',
+  'technique': 'deterministic simulation of a long-lived compiling process: seeded operation histories (parse, compile, reuse of rules and program objects, failing compiles, clock jumps, directory and environment changes; Python parser and C++ parser) in simulated processes (module-universe reset, confirmed by forks of a pristine zygote) under a chosen PYTHONHASHSEED, refinement against pristine processes under the same and under another hash seed; simulated clock',
+  'text': 'Seeded search over operation histories x hash seeds x programs (the whole repository corpus, dealt out over the batches, and generated programs with functors, all recursion modes incl. DuckDB stop conditions, imports, typed dialects with functions and user-defined aggregations, experimental syntax and operators); a clean batch is evidence over the sampled histories and seeds, not a proof. Exploration is the right level: the property quantifies over all histories and all hash seeds.',
+  'note': 'Trusted: fork() of a never-used zygote is a fresh process; the cheap process model (repository modules dropped and re-imported) is cross-validated against it once per batch and every disagreement is confirmed with real processes before it counts; only the exception type is compared for failing requests; histories under the C++ parser (LOGICA_PARSER=CPP, library built once per check run from the tree under test) run in real processes only and are compared with C++-mode references (the two parsers are not compared with each other: that is C06).',
   'design_ref': 'DESIGN.md sections 5 (C13) and 11.2',
  },
  'C17': {
   'engine': 'groundsim',
-  'technique': 'deterministic simulation with fault injection: seeded histories of runs (script path, logica.py main incl. several predicates at once, run_in_terminal Run/RunMany), fact-version switches, tampering, crash/interrupt/disk-full/lock faults and retained failed connections against one persistent SQLite file; per-statement table reads/writes observed through the SQLite authorizer; oracle = reference evaluator plus ordering and atomicity invariants',
+  'technique': 'deterministic simulation with fault injection: seeded histories of runs (script path, logica.py main incl. several predicates at once, run_in_terminal Run/RunMany), fact-version switches, tampering, crash/interrupt/disk-full faults, another client holding the write lock for a drawn number of statements, retained failed connections, simulated sleep, against one persistent SQLite file, every case in a simulated process of its own and every logica.py invocation in another; per-statement table reads/writes observed through the SQLite authorizer; oracle = reference evaluator plus ordering and atomicity invariants',
   'text': 'Seeded search over programs with grounded intermediates x histories of runs x fault positions (every abort position enumerated for a subset of histories); a clean batch is evidence over the sampled histories, not a proof. Exploration fits: the property quantifies over all programs and all run sequences.',
-  'note': 'Trusted: lsim/ref.py, SQLite (incl. its statement rollback), the statement-boundary crash model (no torn pages: Python sqlite3 exposes no VFS hook). After an aborted run only atomicity is demanded; fault-free twins of every history run with no relaxation.',
+  'note': 'Trusted: lsim/ref.py, SQLite (incl. its statement rollback), the statement-boundary crash model (no torn pages: Python sqlite3 exposes no VFS hook). After an aborted run only atomicity is demanded; fault-free twins of every history run with no relaxation. Two fixed inputs (case-insensitive table names, column affinity of CREATE TABLE AS) are genuine unrepaired defects reported as KNOWN-FINDING (known_findings.json, DESIGN 11.6).',
   'design_ref': 'DESIGN.md sections 5 (C17) and 11',
  },
  'C20': {
@@ -50,14 +50,14 @@ CLAIMS = {
  },
  'C03': {
   'engine': 'recsim',
-  'technique': 'deterministic simulation with fault injection: generated recursive programs run through the real compiler, Concertina and SQLite under seeded execution schedules (stale generation tables, aborted/failed then re-run, several predicates at once); oracle = Jacobi T^(depth+1) and least fixpoint from an independent reference evaluator',
+  'technique': 'deterministic simulation with fault injection: generated recursive programs run through the real compiler, Concertina and SQLite under seeded execution schedules (stale generation tables, aborted/failed then re-run, several predicates at once, functor copies, recursion through negation and aggregation); oracle = Jacobi T^(depth+1) and least fixpoint from an independent reference evaluator',
   'text': 'Seeded search over recursive programs x depths (both sides of the 20/21 switch to iterative execution) x execution schedules and fault positions; a clean batch is evidence over the sampled cases, not a proof. For depth <= 20 the result is a single SQL statement and the check is seeded differential testing against the reference model with no fault dimension; the simulation proper (stateful multi-step execution, persistent leftovers, engine faults) applies to iterative plans.',
-  'note': 'Trusted: lsim/ref.py (bag-semantics evaluator written from docs/learn/logica.md), SQLite, the statement-boundary crash model. Vertically unfolded mutual recursion is checked by containment only, as the property states.',
+  'note': 'Trusted: lsim/ref.py (bag-semantics evaluator written from docs/learn/logica.md), SQLite, the statement-boundary crash model. Vertically unfolded mutual recursion is checked by containment only, as the property states (non-monotone programs are skipped there); functors get their documented meaning by explicit copying in the reference. One fixed input (member names differing only in letter case) is a genuine unrepaired defect reported as KNOWN-FINDING.',
   'design_ref': 'DESIGN.md sections 5 (C03) and 11',
  },
  'C14': {
   'engine': 'concsim',
-  'technique': 'deterministic simulation: (A) the real Concertina under a simulated engine, stop-signal file system, clock and display, every stop-signal instant and engine-error position of each plan enumerated; (P) the real ExecuteLogicaProgram/RenamePredicate plan assembly on abstract executions with a simulated sql_runner; (B) compiled programs on real SQLite behind a fault-injecting, authorizer-observing connection proxy; constraint oracle plus a cyclic-queue reference model',
+  'technique': 'deterministic simulation: (A) the real Concertina under a simulated engine, stop-signal file system, clock and display, every stop-signal instant and engine-error position of each plan enumerated; (P) the real ExecuteLogicaProgram/RenamePredicate plan assembly on abstract executions with a simulated sql_runner that fails or raises the stop signal at every call, the request repeated on fresh and on the very same execution objects; (B) compiled programs on real SQLite behind a fault-injecting, authorizer-observing connection proxy; constraint oracle plus a cyclic-queue reference model',
   'text': 'Seeded search over generated workflow plans, assembled plans and compiled programs, with every stop-signal instant and engine-error position of each small plan enumerated; a clean batch is evidence over the sampled plans and schedules, not a proof. Exploration is the right level: the property quantifies over all DAGs/placements/subsets, which can only be sampled.',
   'note': 'Trusted: the 30-line cyclic-queue model of an iteration group, the well-formedness rules of generated plans (stated in evidence.assumptions), lsim/ref.py and SQLite in layer B. The engine, file system, clock and IPython display are simulated in layer A; display_mode=colab (graphviz) is not run.',
   'design_ref': 'DESIGN.md sections 5 (C14) and 11',
